@@ -10,6 +10,7 @@ package main
 // independent few-line implementation of the abstract specification.
 
 import (
+	"bufio"
 	"bytes"
 	"errors"
 	"fmt"
@@ -835,6 +836,101 @@ func runC16(r *Run) {
 	r.Extra["fault_runs"] = totalK
 	c16Probe(r)
 	c16Constructor(r)
+	c16Buffered(r)
+}
+
+// c16Buffered: the writer handed to the encoder is itself a buffering writer with a Flush
+// method (a *bufio.Writer, or one that holds everything until Flush) in front of a disk that
+// refuses its k-th write.  The property as stated: the library call during which the refusal
+// happened returns a non-nil error wrapping the writer's error.  Judged per call; no model case
+// (which library call meets the refusal depends on the buffering writer, not on the library).
+type c16Disk struct {
+	calls, failAt int
+	refused       bool
+}
+
+func (d *c16Disk) Write(p []byte) (int, error) {
+	idx := d.calls
+	d.calls++
+	if d.failAt >= 0 && idx >= d.failAt {
+		d.refused = true
+		return 0, w9ErrWriterSentinel
+	}
+	return len(p), nil
+}
+
+// c16Holder keeps what it is given until Flush, like a compressing or network writer.
+type c16Holder struct {
+	d   *c16Disk
+	buf []byte
+}
+
+func (h *c16Holder) Write(p []byte) (int, error) { h.buf = append(h.buf, p...); return len(p), nil }
+func (h *c16Holder) Flush() error {
+	if len(h.buf) == 0 {
+		return nil
+	}
+	_, err := h.d.Write(h.buf)
+	h.buf = h.buf[:0]
+	return err
+}
+
+func c16Buffered(r *Run) {
+	nh := r.N(10, 60)
+	for i := 0; i < nh; i++ {
+		h := w9GenHistory(r, r.N(24, 60), r.N(300, 800), false)
+		for _, kindW := range []int{16, 64, 512, 4096, -1} {
+			mk := func(d *c16Disk) io.Writer {
+				if kindW < 0 {
+					return &c16Holder{d: d}
+				}
+				return bufio.NewWriterSize(d, kindW)
+			}
+			name := "bufio.Writer"
+			if kindW < 0 {
+				name = "writer holding its data until Flush"
+			}
+			run := func(failAt int) (diskWrites int, stop bool) {
+				d := &c16Disk{failAt: failAt}
+				desc := map[string]any{"history": w9DescribeHist(h), "writer": name, "buffer": kindW, "disk_fails_from_write": failAt}
+				judge := func(call string, err error, pn any) bool {
+					switch {
+					case pn != nil:
+						r.Fail(-1, "panic-on-write-failure", fmt.Sprintf("%s behind a %s panics: %v", call, name, pn), desc)
+						return true
+					case d.refused && err == nil:
+						r.Fail(-1, "write-failure-unreported", fmt.Sprintf("%s returned nil although the disk behind the %s refused write %d while it ran", call, name, failAt), desc)
+						return true
+					case err != nil && d.refused && !errors.Is(err, w9ErrWriterSentinel):
+						r.Fail(-1, "error-not-wrapped", fmt.Sprintf("%s returned %q, which does not wrap the writer's error", call, err), desc)
+						return true
+					}
+					return d.refused || err != nil
+				}
+				enc, err, pn := w9NewWenc(h.Kind, mk(d), h.Codec, h.Size)
+				if judge("NewEncoderFor", err, pn) || enc == nil {
+					return d.calls, true
+				}
+				for ci, o := range h.Ops {
+					err, pn := w9CallOp(enc, o)
+					if judge(fmt.Sprintf("call %d (%s)", ci, w9OpName(o)), err, pn) {
+						return d.calls, true
+					}
+				}
+				return d.calls, false
+			}
+			total, _ := run(-1)
+			r.Count(fmt.Sprintf("buffered/%d/disk-writes-%d", kindW, bucket(total)))
+			step := 1
+			if total > 24 {
+				step = total / 24
+			}
+			for k := 0; k < total; k += step {
+				run(k)
+				r.Count("buffered/fault-runs")
+			}
+		}
+	}
 }
 
 // c16Constructor: NewEncoderFor refuses what it cannot encode with an error, before
